@@ -240,7 +240,7 @@ Definition expected_derives (r : registry) (s : settings) (p : list string) (it 
         | Some t =>
             match t_def t, body_fields (pi_body it) with
             | TDComposite [f], pf :: _ =>
-                match resolve r (f_ty f), pf_ty pf with
+                match resolve r (uncow r (f_ty f)), pf_ty pf with
                 | Some ft, PPath true segs =>
                     match t_def ft, path_is segs ["core"; "primitive"; last (map fst segs) ""] with
                     | TDPrimitive _, Some [] =>
@@ -374,7 +374,7 @@ Definition prop_standalone (c : tg_case) : bool :=
                                                    (* a compact field has the primitive type but is not a candidate *)
                                                    match upcast_fields r id vi with
                                                    | Some (_, [f], _) =>
-                                                       match resolve r (f_ty f) with
+                                                       match resolve r (uncow r (f_ty f)) with
                                                        | Some ft => match t_def ft with TDPrimitive _ => true | _ => false end
                                                        | None => false
                                                        end
